@@ -14,6 +14,21 @@
 //	(c) non-owners receive exactly what the database stores (or the masked form);
 //	(d) statements that do not involve protected columns are forwarded byte-identically, and
 //	    rewritten statements keep their parse-tree shape.
+//
+// Further phases over dimensions the history alphabet above keeps fixed (each file states its own
+// finite space; all run on the real proxies with the oracles above):
+//
+//	pg_pumps.go, mysql_pumps.go  interleavings of the two pumps of each proxy
+//	mysql.go                     the MySQL half of the history enumeration
+//	mask_boundary.go             masked columns: value lengths n-1, n, n+1 around plaintext_length n, for
+//	                             {acrablock, acrastruct} x {left, right} x n in {2, 6} (thorough {1, 2, 3, 6,
+//	                             16}), every write kind, UPDATE after INSERT, every read kind; both proxies;
+//	                             plus oracle (e): a stored cell is never the written plaintext itself
+//	wide.go                      number of fields and position of NULLs: SELECT lists of width 1..17
+//	                             (thorough 25) with the NULL / the protected column at every position, read in
+//	                             the text and the binary protocol by owner and readers without keys; multi-row
+//	                             prepared INSERTs with 1..18 (thorough 27) parameters and NULL at every
+//	                             nullable position; both proxies
 package main
 
 import (
@@ -259,6 +274,8 @@ func main() {
 		}
 		r.Finish()
 	}
+	pgMaskBoundaryPhase(r, ks, thorough, nil) // masked columns: value lengths around plaintext_length (mask_boundary.go)
+	pgWidePhase(r, ks, thorough, nil)         // wide result sets / parameter lists, NULL positions (wide.go)
 	rejected := 0
 	totalStates := 0
 	for _, c := range cfgs {
@@ -376,10 +393,16 @@ func main() {
 	b, _ := json.Marshal(map[string]int{"configs": len(cfgs), "rejected_by_validator": rejected, "depth": depth})
 	r.Set("bounds", json.RawMessage(b))
 	r.Sample(map[string]interface{}{"config": cfgs[0].Name, "session": []string{"insert-cols-lit0(value 1)", "ext-select-binary"}})
-	pgPumpPhase(r, ks, thorough)    // interleavings of the PostgreSQL proxy's two pumps (pg_pumps.go)
-	mysqlPart(r, ks, thorough)      // MySQL half (mysql.go); last: it switches the process-wide SQL dialect
-	mysqlPumpPhase(r, ks, thorough) // interleavings of the MySQL proxy's two pumps (mysql_pumps.go)
-	r.Rule("BFS over statement histories (alphabet: write and read statement kinds x value index; row ids by position) per column configuration, each history executed from a fresh real proxy session against a fresh reference database and a shadow database; state = canonical shadow table contents + last statement kind; distinct_nontrivial = distinct (config, statement-kind sequence, violated?)")
+	pgPumpPhase(r, ks, thorough) // interleavings of the PostgreSQL proxy's two pumps (pg_pumps.go)
+	// MySQL phases after the PostgreSQL ones: NewMyEnv switches the process-wide SQL dialect. The small
+	// phases run before the large history enumeration of their proxy (a budget cap then cuts the
+	// large space, bound by bound, and not a whole dimension).
+	myMaskBoundaryPhase(r, ks, thorough, nil) // the MySQL half of mask_boundary.go
+	myWidePhase(r, ks, thorough, nil)         // the MySQL half of wide.go
+	mysqlPart(r, ks, thorough)                // MySQL half of the history enumeration (mysql.go)
+	mysqlPumpPhase(r, ks, thorough)           // interleavings of the MySQL proxy's two pumps (mysql_pumps.go)
+	r.Rule("BFS over statement histories (alphabet: write and read statement kinds x value index; row ids by position) per column configuration, each history executed from a fresh real proxy session against a fresh reference database and a shadow database; state = canonical shadow table contents + last statement kind; distinct_nontrivial = distinct (config, statement-kind sequence, violated?). Mask boundary phase (mask_boundary.go): masked configurations {acrablock, acrastruct} x {left, right} x plaintext_length n x values of n-1, n, n+1 bytes (printable / bytes that need escaping) x histories {one write of every kind; INSERT then every UPDATE kind; INSERT then every read kind}, every history executed and audited like the main ones, distinct = (config, length class, kind sequence, violated?). Wide phase (wide.go): per configuration, SELECT lists (base column with a hot column at every position, widths 1..W; all words over {id, plain, c} up to a small width) read over 4 rows holding every NULL combination of (plain, c), in every protocol / result format, by the owner and the readers without keys, and multi-row prepared INSERTs with every parameter count up to 3R and NULL at none / exactly one / all but one of the nullable parameters, and a one-row INSERT followed by an UPDATE with 0..2 literal SET clauses before the bound value (literal values next to parameters: MySQL both tiers, PostgreSQL thorough tier only); states += select lists read + inserts executed, distinct = (config, scenario, list group or NULL pattern, violated?)")
+	r.Assume("masked columns: the visible plaintext_length bytes of a value longer than plaintext_length may reach the database in clear (documented meaning of masking); what must stay away from the database and from readers without keys is the rest, and the whole value when it is not longer than plaintext_length; containment oracles skip needles shorter than 5 bytes (the equality oracle on stored cells has no such limit)")
 	r.Assume("Themis replaced by the pure-Go stand-in", "database end is the reference database /verif/mc/sess/pgdb.go (pg_query-based); statement shapes outside its domain abort the run as harness errors", "lock-step delivery: client and database pumps never race")
 	r.Finish()
 }
